@@ -500,6 +500,25 @@ example : Life.C04.ok 1 [.supIs (some 0), .drainRet true, .enter .postStop .none
 example : Life.C04.ok 1 [.supIs (some 0), .drainRet true, .enter .postStop .none, .stopRet false (.text "r") true,
     .exit .postStop .ok, .emit 0 (.terminated 1 true .drained)] = true := by decide
 
+/-! ### E-SRC, async-std backend (round 4)
+
+`Life`'s `abort` op (the join handle's `abort()`: the task's future is dropped at its current await point, the
+join handle reports `Cancelled`) is written after tokio. With `--features async-std` the handle is ractor's own
+wrapper: `abort` only sets the `AbortHandle`; every spawn form (`spawn` = `spawn_named(None, ..)`) hands async-std a
+task whose FIRST await is `Abortable::new(future, abort_registration)` (so the abort flag is looked at before every
+poll of the actor's future and the future is dropped when the wrapper returns), sets the `is_done` flag after it, and
+`JoinHandle::poll` maps an aborted task to `Err(())`. The `verif::controlled` hook wraps the future before the
+`Abortable` wrapper, as it wraps the future handed to `tokio::spawn`. -/
+theorem src_async_std_abort :
+    Extracted.asyncStdAbortBody = "self.abort_handle.abort();"
+    ∧ Extracted.asyncStdSpawnCalls = ["async_std::task::spawn_local", "async_std::task::Builder::new()", "async_std::task::spawn"]
+    ∧ Extracted.asyncStdSpawnAwaits = List.replicate 3 "Abortable::new(future,abort_registration)"
+    ∧ Extracted.asyncStdSpawnThen = List.replicate 3 "inner_signal.fetch_or(true,Ordering::Relaxed)"
+    ∧ Extracted.asyncStdPlainSpawnBody = "spawn_named(None,future)"
+    ∧ Extracted.asyncStdJoinPollArms =
+        ["Poll::Pending=>Poll::Pending", "Poll::Ready(Ok(v))=>Poll::Ready(Ok(v))", "Poll::Ready(Err(_))=>Poll::Ready(Err(()))"] := by decide
+theorem src_async_std_verif_hooks : Extracted.asyncStdVerifHooks = ["spawn_local", "spawn_named"] := by decide
+
 end C04
 
 #print axioms C04.reported_once
@@ -523,3 +542,5 @@ end C04
 #print axioms C04.src_cleanup_order
 #print axioms C04.src_terminate_condition
 #print axioms C04.src_status
+#print axioms C04.src_async_std_abort
+#print axioms C04.src_async_std_verif_hooks
